@@ -17,13 +17,13 @@ CLAIMED = {
          "Seeded deterministic simulation of write/advance/read histories on resource nodes created under generated window geometries (ring 1..20 x 1..1000 ms; servable and unservable read windows) under a virtual clock; every read of every reader (sum, qps, qps_previous, avg_rt, min_rt) compared with the recorded event list; construction accept/refuse compared with an independent predicate. Exploration: unbounded histories x geometries, sampled with boundary-biased steps.",
          "DESIGN.md §4 C02", "deterministic simulation: virtual clock + seeded event histories vs recorded-event reference", SEQ_NOTE),
  "C04": ("seq", "exploration",
-         "Seeded deterministic simulation of build/exit/advance histories over several resources, inbound and outbound, with a rule mix of all five families blocking part of the traffic; after every operation the 1 s and 10 s windows and the in-flight count of every resource node and of the global inbound node are compared with a reference account fed with the observed outcomes.",
+         "Seeded deterministic simulation of build/exit/advance histories over several resources, inbound and outbound, with a rule mix of all five families (throttling included, so that entries queue) blocking part of the traffic, occasionally with ~10000 other resources already tracked; after every operation the 1 s and 10 s windows and the in-flight count of every resource node and of the global inbound node are compared with a reference account fed with the observed outcomes.",
          "DESIGN.md §4 C04", "deterministic simulation: virtual clock + seeded histories vs reference accounting model", SEQ_NOTE),
  "C05": ("seq", "exploration",
-         "Seeded deterministic simulation of build/exit interleavings (PRNG picks which open entry exits) under isolation and hotspot-concurrency rules; each decision compared with reference in-flight counts per resource and per (rule, parameter value); block type and named rule checked.",
+         "Seeded deterministic simulation of build/exit interleavings (PRNG picks which open entry exits) under isolation and hotspot-concurrency rules (inbound and outbound entries, override tables incl. 0, the empty string as a parameter value); each decision compared with reference in-flight counts per resource and per (rule, parameter value); block type and named rule checked.",
          "DESIGN.md §4 C05", "deterministic simulation: seeded build/exit interleavings vs reference in-flight model", SEQ_NOTE),
  "C03": ("seq", "exploration",
-         "Seeded deterministic simulation of enter/complete/advance histories (completions ok|error, fast|slow through the virtual clock, arrivals on and around the retry time) on 1-2 breakers plus an optional flow rule that rejects a probe elsewhere; build() result, current_state() of every breaker and the full listener log are compared with a reference state machine after every operation.",
+         "Seeded deterministic simulation of enter/complete/advance histories (completions ok|error, fast|slow through the virtual clock, arrivals on and around the retry time) on 1-2 breakers (slow-request limits up to 120 s) plus an optional flow rule that rejects a probe elsewhere; build() result, current_state() of every breaker and the full listener log are compared with a reference state machine after every operation.",
          "DESIGN.md §4 C03 / appendix A.2", "deterministic simulation: virtual clock + seeded event histories vs reference state machine", SEQ_NOTE),
  "C06": ("seq", "exploration",
          "Seeded deterministic simulation of arrival histories (gaps 0 .. several durations incl. exactly d and d+1 ms) against hotspot QPS/reject rules; stated upper bound per value, rejection only when a conservative reference bucket is insufficient, per-value overrides, and a differential second execution projected onto one value (no cross-talk).",
@@ -38,19 +38,19 @@ CLAIMED = {
          "Seeded deterministic simulation of inbound/outbound traffic histories with injected load/CPU readings; system rule sets are (re)loaded mid-history with thresholds resolved below/equal/above the reference's predicted observation, every inbound decision, block type, named rule and reported value compared with the reference.",
          "DESIGN.md §4 C09 / appendix A.5", "deterministic simulation: virtual clock + injected readings + seeded histories vs reference inbound model", SEQ_NOTE),
  "C10": ("seq", "exploration",
-         "Seeded deterministic simulation of management histories (load-all, load-for-resource, append, clear, clear-for-resource) per family over pools of valid, invalid and equal-but-differently-identified rules with seeded hash order; reported rules, live controller/breaker lists and (flow, isolation) behaviourally measured enforcement compared with a reference map after every call; calls under catch_unwind with a health probe.",
+         "Seeded deterministic simulation of management histories (load-all, load-for-resource, append, clear, clear-for-resource) per family over pools of valid, invalid, equal-but-differently-identified, edited-with-the-same-id and nearest-neighbour (threshold one representable value apart) rules, incl. a registered custom hotspot strategy and odd statistic intervals, with seeded hash order; rule equality restated on the specifications, reported rules matched by complete fingerprint; reported rules, live controller/breaker lists and (flow, isolation) behaviourally measured enforcement compared with a reference map after every call; calls under catch_unwind with a health probe.",
          "DESIGN.md §4 C10", "deterministic simulation: seeded management histories and hash order vs reference rule map", SEQ_NOTE),
  "C12": ("seq", "exploration",
-         "Seeded walk over the rule space of all five families (every enum value incl. unregistered custom strategies, boundary and out-of-range numerics, NaN, empty/blank names) through every loading entry point, followed by entries with batch {0,1,2,10^6}, argument lists and attachments, virtual time steps and exits; every call under catch_unwind and the run watchdog, each run isolated on its own thread with a health probe of all managers afterwards (a poisoned lock is visible to this run and to no other).",
+         "Seeded walk over the rule space of all five families (every enum value incl. unregistered custom strategies, boundary and out-of-range numerics, NaN, empty/blank names) through every loading entry point (sometimes with entries already in flight when the rules arrive; one run in ten a small-parameter-cache walk), followed by entries with batch {0,1,2,10^6}, argument lists and attachments, virtual time steps and exits; every call under catch_unwind and the run watchdogs (CPU time for spinning runs, wall clock for blocked ones), each run isolated on its own thread with a health probe of all managers afterwards (a poisoned lock is visible to this run and to no other).",
          "DESIGN.md §4 C12", "deterministic simulation: isolated runs with virtual time, catch_unwind + watchdog + health probe over a seeded rule-space walk", SEQ_NOTE),
  "C11": ("seq", "exploration",
          "Differential deterministic simulation: the same seeded traffic history on a target guarded by one stateful rule (10 rule variants) is executed without and with a reload (load-all / load-for-resource, equal target rule under a new id, unrelated resources changed) at a random point, 3000 virtual seconds apart so that every bucket alignment is preserved; decisions, waits, block types and breaker states must be identical. A changed threshold must be followed by the very next entry.",
          "DESIGN.md §4 C11", "deterministic simulation: differential re-execution of one seeded history with/without reload under the virtual clock", SEQ_NOTE),
  "C17": ("seq", "exploration",
-         "Seeded deterministic simulation over a grid of configurations given as entity and as YAML text: accept/refuse compared with an independent predicate; for accepted ones a node created on the initialising thread and one created on a second (spawned-and-joined, never concurrent) thread run the same virtual-time write/read history and must both show the configured geometry.",
+         "Seeded deterministic simulation over a grid of configurations given as entity and as YAML text: accept/refuse compared with an independent predicate; nodes created on the initialising thread, on a second (spawned-and-joined, never concurrent) thread and on a thread that existed before initialisation run the same virtual-time write/read history and must all show the configured geometry; after a refused initialisation the run continues and the previous (default) configuration must still be in effect.",
          "DESIGN.md §4 C17", "deterministic simulation: serialised real threads + virtual clock, behavioural measurement of window geometry vs reference", SEQ_NOTE),
  "C20": ("seq", "exploration",
-         "Seeded deterministic simulation of request sequences through the real SentinelService around a scripted inner service (ready/pending x j, Ok/Err) with a hand-written executor that polls one in-flight future at a time in PRNG order; inner-call counts, outputs and the resource's in-flight count are compared with a reference isolation model after every step. Inner-service failure and slow (pending) inner calls are the injected faults.",
+         "Seeded deterministic simulation of request sequences through the real SentinelService around a scripted inner service (ready/pending x j, Ok/Err) with a hand-written executor that polls one in-flight future at a time in PRNG order; inner-call counts, outputs and the resource's in-flight count are compared with a reference isolation model after every step; fallbacks that answer or return an error; the virtual wall clock is advanced and stepped back between operations (clock-jump fault). Inner-service failure and slow (pending) inner calls are the injected faults.",
          "DESIGN.md §4 C20", "deterministic simulation: scripted inner service + deterministic future executor + fault sequence (inner errors, pending polls) vs reference admission model", SEQ_NOTE),
 }
 
@@ -61,20 +61,20 @@ SCHED_NOTE = ("Trusted: rustc/std, shuttle 0.9.3's model of Mutex/RwLock/atomics
 
 CLAIMED.update({
  "C14": ("sched", "exploration",
-         "Controlled-scheduler simulation: 2-3 simulated threads build/exit entries on one fresh or existing resource while our own seeded scheduler (uniform, PCT-style, preemption-sparse) decides every interleaving of sentinel-core's lock/atomic operations and a clock task may roll the bucket over at any scheduling point; after join node identity, in-flight and window totals are compared with the per-thread sums. Failing executions are rewritten to default policy + explicit preemptions, minimised and replayed.",
+         "Controlled-scheduler simulation: 2-3 simulated threads build/exit entries on one fresh or existing resource while our own seeded scheduler (uniform, PCT-style, preemption-sparse) decides every interleaving of sentinel-core's lock/atomic operations and a clock task may roll the bucket over (or move the clock a whole ring lap further) at any scheduling point; after join node identity, in-flight and window totals are compared with the per-thread sums. Failing executions are rewritten to default policy + explicit preemptions, minimised and replayed.",
          "DESIGN.md §3.3, §4 C14", "deterministic simulation: controlled thread scheduler with seeded schedule search and replayable preemption lists", SCHED_NOTE),
  "C15": ("sched", "exploration",
          "Controlled-scheduler simulation of concurrent rule-management calls (all seven operation kinds, within and across families) with optional concurrent entries, callback listeners and callback generators; verdicts are the runtime's deadlock detection (blocked cycle or self re-lock), a step bound, absence of panics and a sequential health probe of all managers.",
          "DESIGN.md §3.3, §4 C15", "deterministic simulation: controlled thread scheduler, deadlock verdict + bounded liveness + health probe", SCHED_NOTE),
  "C16": ("sched", "exploration",
-         "Controlled-scheduler simulation of races around each breaker transition (S1-S4) with the clock frozen; a totally ordered log of listener callbacks and decisions is checked for valid state-machine paths, single winners, one probe per Half-Open phase and roll-back of rejected probes.",
+         "Controlled-scheduler simulation of races around each breaker transition (S1-S4) with the clock frozen; a totally ordered log of listener callbacks and decisions is checked for valid state-machine paths, single winners, one probe per Half-Open phase, no Open->Half-Open before the retry time of the current Open phase, and roll-back of rejected probes (also when stale completions decide the phase first).",
          "DESIGN.md §3.3, §4 C16", "deterministic simulation: controlled thread scheduler, history checks over a totally ordered event log", SCHED_NOTE),
 })
 
 CLAIMED["C19"] = ("seq", "fault_enumeration",
-         "Seeded write histories through the real metric log writer (size and date roll-over, retention) under the virtual clock; exhaustive query windows on the uncrashed directory for fresh and reused searchers; then fault enumeration: the libc-level operation log (every create, unlink and written byte in program order) is cut at EVERY crash point of each sampled history, each prefix materialised as a directory and searched (no panic, complete+indexed items returned in order, at most the single torn last line lost or misread). All crash points of each sampled history are enumerated; histories are sampled.",
+         "Seeded write histories through the real metric log writer (size and date roll-over, retention) under the virtual clock; short writes and EINTR injected into the writer's write(2) calls; a long-lived searcher queries between writes (its cache must survive roll-over and retention); exhaustive query windows on the uncrashed directory for fresh, reused and long-lived searchers; then fault enumeration: the libc-level operation log (every create, unlink and written byte in program order) is cut at EVERY crash point of each sampled history, each prefix materialised as a directory and searched (no panic, complete+indexed items returned in order, at most the single torn last line lost or misread). All crash points of each sampled history are enumerated; histories are sampled.",
          "DESIGN.md §4 C19 / appendix A.6", "deterministic simulation with crash-point enumeration over a recorded libc-level write/create/unlink log",
-         SEQ_NOTE + " Crash model as stated by the property: the surviving files are a prefix, in program order, of what the writer issued (no page-cache reordering); crash states are synthesised from the recorded operation log, whose fidelity is self-checked against the real directory at the end of every history.")
+         SEQ_NOTE + " Crash model as stated by the property: the surviving files are a prefix, in program order, of what the writer issued (no page-cache reordering); crash states are synthesised from the recorded operation log, whose fidelity is self-checked against the real directory at the end of every history and validated against real process deaths inside the seam (./check validate-c19). At sampled crash states a new writer is started on the crashed directory (restart) and the directory is searched again.")
 
 NOT_APPLICABLE = {
  "C13": "pure function of (chain shape, order values, scripted slot results): no clock, schedule, fault or surviving state for a simulator to own (DESIGN.md §5)",
@@ -116,7 +116,7 @@ def main():
         "engines": [
             {"name": "seq", "path": "/verif/sim", "serves_properties": [p for p in props if p in CLAIMED and CLAIMED[p][0] == "seq"],
              "kind_free_text": "discrete-event deterministic simulation: virtual clock, seeded scenarios and hash order, one pristine OS thread per run, violations confirmed/minimised/replayed in new processes"},
-            {"name": "sched", "path": "/verif/sched", "serves_properties": [p for p in props if p in CLAIMED and CLAIMED[p][0] == "sched"],
+            {"name": "sched", "path": "/verif/sched", "serves_properties": [p for p in props if p in CLAIMED and (CLAIMED[p][0] == "sched" or p in ("C08", "C11"))],
              "kind_free_text": "controlled thread scheduler (shuttle primitives on a mechanically rewritten copy of sentinel-core, own seeded Scheduler), replayable schedules"},
         ],
         "checks": checks,
